@@ -47,6 +47,32 @@ def coveredFrom : Nat → List (Nat × Nat) → Ranges
 def coveredOf (blanks : List (Nat × Nat)) : Ranges :=
   if blanks.isEmpty then [(0, 0)] else coveredFrom 0 blanks
 
+/-- `compact_start` of the range at position `pos` (1 + lengths of the ranges before it);
+`compact_end` of range `pos − 1` is `cstartAt pos − 1` -/
+def cstartAt (rs : Ranges) (pos : Nat) : Nat := 1 + ((rs.take pos).map rangeLen).sum
+
+/-- the `Err(pos)` of `binary_search_by` for a value outside the covered space: the number of ranges
+entirely below it (contract of `std`) -/
+def errPos (rs : Ranges) (v : Nat) : Nat := rs.countP (fun r => decide (r.2 < v))
+
+/-- mirrors: CompactSpaceDecompressor::get_row_ids_for_value_range, range conversion: `none` = early
+return (empty query range, or both ends fall into the same gap); a start in a gap moves up to the
+next range's `compact_start`, an end in a gap moves down to the previous range's `compact_end` -/
+def compactRange (rs : Ranges) (lo hi : Nat) : Option (Nat × Nat) :=
+  if lo > hi then none else
+  match toCompact rs lo, toCompact rs hi with
+  | none, none => if errPos rs lo = errPos rs hi then none else some (cstartAt rs (errPos rs lo), cstartAt rs (errPos rs hi) - 1)
+  | some a, none => some (a, cstartAt rs (errPos rs hi) - 1)
+  | none, some b => some (cstartAt rs (errPos rs lo), b)
+  | some a, some b => some (a, b)
+
+/-- positions `s..e` whose compact value lies in the converted range
+(mirrors: get_positions_for_compact_value_range → BitUnpacker::get_ids_for_value_range) -/
+def compactRangeRows (rs : Ranges) (compacts : List Nat) (lo hi s e : Nat) : List Nat :=
+  match compactRange rs lo hi with
+  | none => []
+  | some r => (List.range' s (min e compacts.length - s)).filter (fun i => decide (r.1 ≤ compacts.getD i 0) && decide (compacts.getD i 0 ≤ r.2))
+
 /-! ## byte layout -/
 
 /-- mirrors: common/src/vint.rs::VIntU128::deserialize -/
